@@ -241,7 +241,10 @@ class ListingToTokenizedBasicConverter:
             if isInLiteralString:
                 tokenizer.appendAsLitteral(char)
                 continue
-            if char in ListingToTokenizedBasicConverter.SPECIAL_CHARS:
+            if (
+                char in ListingToTokenizedBasicConverter.SPECIAL_CHARS
+                or char in basicTokensMap
+            ):
                 tokenizer.appendAsToken(char)
                 tokenizer.commit()
                 continue
